@@ -165,6 +165,12 @@ def run_apalache(module, cinit, init, inv, length, expect_violation=False, timeo
     res = {"module": module, "cfg": "apalache --cinit=%s --init=%s --inv=%s --length=%d" % (cinit, init, inv, length),
            "states": 0, "transitions": 0, "symbolic": True,
            "wall_s": round(time.time() - t0, 2), "exit": p.returncode}
+    if "The outcome is:" not in out:
+        # the tool itself did not run to a verdict (not a statement about the model, and none about /repo):
+        # recorded in the evidence as skipped; the TLC runs of the same check do not depend on it
+        res["skipped"] = "apalache-mc produced no verdict (exit %d): %s" % (p.returncode, out.strip()[-300:])
+        log("note: Apalache run skipped for %s/%s (no verdict, exit %d)" % (module, cinit, p.returncode))
+        return res
     ok = p.returncode == 0 and "The outcome is: NoError" in out
     bad = p.returncode == 12 and "The outcome is: Error" in out and "invariant" in out
     if expect_violation:
